@@ -203,9 +203,19 @@ def run(case, rec):
     route = case.get("route")
     if route in ("set_params", "attribute"):
         other = dict(kw, center_coordinates=not kw["center_coordinates"], drop_coords=not kw["drop_coords"])
+        # ... and ANOTHER block definition: everything the constructor saw is replaced afterwards (seed C09-7: a snapshot in __init__)
+        if other.get("spacing") is not None:
+            other["spacing"] = tuple(2.5 * v for v in np.atleast_1d(other["spacing"]).tolist() * 2)[:2]
+        if other.get("shape") is not None:
+            other["shape"] = tuple(int(v) + 1 for v in other["shape"])
+        if other.get("region") is not None:
+            other["region"] = tuple(v + d_ for v, d_ in zip(other["region"], (-3.0, 5.0, -1.0, 2.0)))
+        else:
+            other["region"] = (-100.0, 100.0, -100.0, 100.0)
+        other["adjust"] = "region" if other.get("adjust", "spacing") == "spacing" else "spacing"
         reducer = call(rec, vd.BlockReduce, np.max, **other)
         if not raised(reducer):
-            full_kw = dict(kw, reduction=red)
+            full_kw = dict(dict(spacing=None, shape=None, region=None, adjust="spacing"), **kw, reduction=red)
             if route == "set_params":
                 reducer.set_params(**full_kw)
             else:
